@@ -25,6 +25,10 @@ pub enum ChoiceSpec {
 #[derive(Clone, Debug, Serialize, Deserialize, Default)]
 pub struct NodeSpec {
     pub name: String,
+    /// parent-pointer style optional weak field (`Option<W<Node>>`), written right after `name`;
+    /// never `Some(Dangling)` (an `Option` cannot tell that from `None`)
+    #[serde(default)]
+    pub up: Option<WT>,
     pub wfirst: Vec<WT>,
     pub one: Option<usize>,
     pub kids: Vec<usize>,
@@ -41,7 +45,7 @@ pub struct NodeSpec {
 
 impl NodeSpec {
     pub fn weak_slots(&self) -> impl Iterator<Item = &WT> {
-        self.wfirst.iter().chain(self.inner_w.iter()).chain(self.weak.iter()).chain(self.wmap.iter().map(|(_, t)| t))
+        self.up.iter().chain(self.wfirst.iter()).chain(self.inner_w.iter()).chain(self.weak.iter()).chain(self.wmap.iter().map(|(_, t)| t))
     }
     pub fn has_self_weak(&self) -> bool {
         self.weak_slots().any(|t| *t == WT::SelfRef)
@@ -95,6 +99,9 @@ impl Spec {
                     WT::Live(j) if !rec && *j <= i => return false,
                     _ => {}
                 }
+            }
+            if ns.up == Some(WT::Dangling) {
+                return false;
             }
             if ns.leaf.iter().any(|k| *k >= self.leaves.len()) {
                 return false;
@@ -259,6 +266,9 @@ impl Spec {
             fn define(&mut self, i: usize) {
                 self.st[i] = 1;
                 let ns = &self.s.nodes[i];
+                if let Some(t) = &ns.up {
+                    self.weak(t, Some(i));
+                }
                 for t in &ns.wfirst {
                     self.weak(t, Some(i));
                 }
@@ -528,7 +538,11 @@ fn random_spec_once(rng: &mut Rng, p: &GenParams, n: usize) -> Spec {
                 let i = rng.below(n);
                 // slot: 0 wfirst (before every strong field), 1 inner.w (after one/kids/named/inner.a/inner.list),
                 // 2 weak, 3 wmap (after every strong field)
-                let slot = rng.below(4);
+                // 4 up (optional parent pointer, before every other field; never dangling, one per node)
+                let mut slot = rng.below(5);
+                if slot == 4 && (dangling || s.nodes[i].up.is_some()) {
+                    slot = 2;
+                }
                 let t = if dangling {
                     WT::Dangling
                 } else if p.allow_early {
@@ -568,11 +582,45 @@ fn random_spec_once(rng: &mut Rng, p: &GenParams, n: usize) -> Spec {
                     0 => ns.wfirst.push(t),
                     1 => ns.inner_w.push(t),
                     2 => ns.weak.push(t),
+                    4 => ns.up = Some(t),
                     _ => {
                         let k = format!("w{}", ns.wmap.len());
                         ns.wmap.push((k, t));
                     }
                 }
+            }
+        }
+    }
+    // recursive families: parent pointers. A node reached through a strong edge gets, with the
+    // sharing-independent probability 1/3, an `up` edge to its direct parent, to a farther open
+    // ancestor, or to a node that was completed earlier in the walk.
+    if p.rec && !p.allow_early {
+        let parents: Vec<Vec<usize>> = {
+            let mut v = vec![Vec::new(); n];
+            for i in 0..n {
+                for j in s.nodes[i].strong_targets() {
+                    v[j].push(i);
+                }
+            }
+            v
+        };
+        for i in 0..n {
+            if s.nodes[i].up.is_some() || pos[i] == usize::MAX || !rng.chance(1, 3) {
+                continue;
+            }
+            // the parent through which the walk first reaches node i is the one with the smallest position
+            // among those that are visited before i
+            let first_parent = parents[i].iter().copied().filter(|q| pos[*q] < pos[i]).max_by_key(|q| pos[*q]);
+            let ancestors: Vec<usize> = (0..n).filter(|a| *a != i && pos[*a] < pos[i] && reach[*a] & (1u64 << i) != 0).collect();
+            let earlier: Vec<usize> = (0..n).filter(|a| pos[*a] < pos[i]).collect();
+            let t = match rng.below(3) {
+                0 => first_parent,
+                1 if !ancestors.is_empty() => Some(*rng.pick(&ancestors)),
+                _ if !earlier.is_empty() => Some(*rng.pick(&earlier)),
+                _ => None,
+            };
+            if let Some(j) = t {
+                s.nodes[i].up = Some(WT::Live(j));
             }
         }
     }
@@ -604,9 +652,9 @@ pub fn pairs(n: usize) -> usize {
 }
 
 /// Number of weak configurations for `n` nodes: none, or one weak edge
-/// (source node, slot in {wfirst, weak}, target in {node 0..n-1, dangling}).
+/// (source node, slot in {wfirst, weak, up}, target in {node 0..n-1, dangling}).
 pub fn weak_options(n: usize) -> usize {
-    1 + n * 2 * (n + 1)
+    1 + n * 3 * (n + 1)
 }
 
 pub fn exhaustive_size(n: usize, with_weak: bool, pair_options: usize) -> usize {
@@ -667,8 +715,8 @@ pub fn exhaustive_spec(n: usize, with_weak: bool, pair_options: usize, rec: bool
         if w > 0 {
             let w = w - 1;
             let tgt = w % (n + 1);
-            let slot = (w / (n + 1)) % 2;
-            let src = w / (2 * (n + 1));
+            let slot = (w / (n + 1)) % 3;
+            let src = w / (3 * (n + 1));
             let t = if tgt == n {
                 WT::Dangling
             } else if rec {
@@ -680,10 +728,15 @@ pub fn exhaustive_spec(n: usize, with_weak: bool, pair_options: usize, rec: bool
             } else {
                 return None;
             };
-            if slot == 0 {
-                s.nodes[src].wfirst.push(t)
-            } else {
-                s.nodes[src].weak.push(t)
+            match slot {
+                0 => s.nodes[src].wfirst.push(t),
+                1 => s.nodes[src].weak.push(t),
+                _ => {
+                    if t == WT::Dangling {
+                        return None;
+                    }
+                    s.nodes[src].up = Some(t)
+                }
             }
         }
     }
